@@ -1082,6 +1082,9 @@ class Evaluator:
             if m.variety == 'atomic':
                 if m.prim in ('string', 'anyURI', 'QName', 'NOTATION'):
                     return s1 == s2
+                if m.prim in ('decimal', 'float', 'double'):
+                    # the comparison functions take a digit-less literal ('.', '-.') for zero (KF-C09-01/02)
+                    s1, s2 = (re.sub(r'^([+-]?)\.$', r'\g<1>0', x) for x in (s1, s2))
                 v1, v2 = prim_value(m.prim, s1), prim_value(m.prim, s2)
                 return v1 is not None and v2 is not None and prim_eq(m.prim, v1, v2)
             if m.variety == 'list':
@@ -1287,7 +1290,9 @@ def classify(tname, prim, s):
             f.append('pad' + str(s.count('=')))
         n = len(re.sub('[ =]', '', s))
         f.append('len%%4=%d' % (len(s.replace(' ', '')) % 4))
-        if not re.match(r'[A-Za-z0-9+/= ]*\Z', s):
+        if any(ord(ch) > 0xFF for ch in s):
+            f.append('char-above-U+00FF')
+        elif not re.match(r'[A-Za-z0-9+/= ]*\Z', s):
             f.append('alien-char')
         return '+'.join(f)
     if prim == 'boolean':
